@@ -487,7 +487,7 @@ def ownTypes (cfg : Cfg) (f : RawField) : TySet :=
 
 def liftAdd (text : List Char) (nestedArg : Bool) : Except AddErr State → Except PErr State
   | .ok st => .ok st
-  | .error .indexError => .error (.own .ArgumentNumberingMixture (.text text))   -- nested fields too, since fix 4dd2807 (was: the `NestedField` object)
+  | .error .indexError => .error (.own .ArgumentNumberingMixture (.text text))   -- nested fields too, since fix 3a (was: the `NestedField` object)
   | .error .overflowError => .error (.own .ArgumentRangeError (.text text))
   | .error (.crash e) => .error (.crash e)
 
